@@ -44,9 +44,9 @@ let run_keyspace (toks : string list) : string =
     then "all-present"
     else "violated"
   | [ "purge"; _; _; _ ] ->
-    (* The purge task only reads the group map (Keyspace.v has no transition that replaces an
-       entry: KsInv, entries are inserted by add_state only when absent), so whatever happens to
-       the purge itself the acknowledged mutations stay in the one registered instance. *)
+    (* KeyspaceLife.v: a tick of the purge task is the identity on the group map and on the
+       acknowledged documents whatever happens to the purge itself (it only reads the map), so
+       by C18_life_of_the_node the acknowledged mutations stay in the one registered instance. *)
     "all-present"
   | _ -> "?bad-case"
 
